@@ -197,7 +197,8 @@ def concrete_case(pool, meta, inputs):
 # generated code that DIVIDES (alg.inv, alg.div): python ast -> the program type of coq/Model/SlpDiv.v (dexp / dprog).
 # New functions only; nothing above changes.  Same statement shape as program_of; the expression language gains
 #     EXPR / EXPR
-# and still refuses everything else (calls, attribute access, subscripts, floats, ** with a non-literal or negative exponent,
+#     EXPR ** (-n)      n a literal natural number >= 1, read as  1 / EXPR ** n
+# and still refuses everything else (calls, attribute access, subscripts, floats, ** with a non-literal exponent,
 # comparisons, conditional expressions, ...).
 IMPORTS_DIV = 'Model.All Model.Slp Model.SlpDiv'
 _DCON = {'XVar': 'DVar', 'XInt': 'DInt', 'XNeg': 'DNeg', 'XPow': 'DPow', 'XAdd': 'DAdd', 'XSub': 'DSub', 'XMul': 'DMul'}
@@ -217,6 +218,10 @@ def _dexpr(e, params):
     if isinstance(e, ast.BinOp):
         if isinstance(e.op, ast.Pow):
             n = e.right
+            if isinstance(n, ast.UnaryOp) and isinstance(n.op, ast.USub) and isinstance(n.operand, ast.Constant) \
+                    and type(n.operand.value) is int and 1 <= n.operand.value <= MAXPOW:
+                # a ** (-n), n a literal: 1 / a ** n  (what python computes on Fractions; ZeroDivisionError at 0)
+                return f'(DDiv (DInt 1) (DPow {_dexpr(e.left, params)} {kv.nat(n.operand.value)}))'
             if not (isinstance(n, ast.Constant) and type(n.value) is int and 0 <= n.value <= MAXPOW):
                 raise Untranslatable('exponent ' + ast.dump(n))
             return f'(DPow {_dexpr(e.left, params)} {kv.nat(n.value)})'
